@@ -5,7 +5,8 @@ BINS = ["ux_arith"]
 RULE = ("all (n, d) at BITS<=6 incl. d=0 (exhaustive); at the other widths divisors of every trimmed limb "
         "length 1..LIMBS with every leading_zeros class, and adversarial numerators: n=q*d+r from extreme q,d,r, "
         "n=(q+1)*d-delta (3-by-2 estimate one too high -> add-back), numerator windows equal to the divisor's "
-        "leading limbs (forced digit), all-ones lower divisor limbs, n<d, n=d, n=d+-1; every pair through "
+        "leading limbs (forced digit), exact multiples whose digit estimate is one too low (final r >= d correction with r = d, "
+        "found by simulating the 2-by-1 and 3-by-2 digit steps), all-ones lower divisor limbs, n<d, n=d, n=d+-1; every pair through "
         "div_rem, 12 operator forms, checked/wrapping forms, div_ceil, (checked_)next_multiple_of; a case is one "
         "distinct (width, n, d)")
 
@@ -106,6 +107,73 @@ def forced_digit_cases(bits, rng, count):
     return out
 
 
+_B = 1 << 64
+
+
+def _mg10_2x1_increment_on_exact(u, d):
+    """div_2x1_mg10 (Moller-Granlund algorithm 4) on u = k*d: does the LAST correction (r >= d => q+1) fire with r == d?"""
+    v = ((1 << 128) - 1) // d - _B
+    u1, u0 = u >> 64, u % _B
+    q = (u1 * v + u) % (1 << 128)
+    q1, q0 = ((q >> 64) + 1) % _B, q % _B
+    r = (u0 - q1 * d) % _B
+    if r > q0:
+        q1 = (q1 - 1) % _B
+        r = (r + d) % _B
+    return r == d
+
+
+def _mg10_3x2_increment_on_exact(u, d):
+    """div_3x2_mg10 (algorithm 5) on u = k*d, d two limbs normalised: last correction fires with r == d?"""
+    v = ((1 << 192) - 1) // d - _B
+    d1, d0 = d >> 64, d % _B
+    u21, u0 = u >> 64, u % _B
+    q = ((u21 >> 64) * v + u21) % (1 << 128)
+    q1, q0 = q >> 64, q % _B
+    r1 = ((u21 % _B) - q1 * d1) % _B
+    t = d0 * q1
+    r = ((r1 << 64 | u0) - t - d) % (1 << 128)
+    q1 = (q1 + 1) % _B
+    if (r >> 64) >= q0:
+        q1 = (q1 - 1) % _B
+        r = (r + d) % (1 << 128)
+    return r == d
+
+
+def estimate_low_exact(bits, rng, count):
+    """Exact multiples n = K*d whose quotient digits are close to 2^64 and for which the reciprocal-based digit estimate
+    is one too LOW, so that the final `r >= d` correction fires with r == d (the only inputs on which `>=` and `>`
+    differ there).  Found by simulating the two Moller-Granlund digit steps; one- and two-limb divisors, with and
+    without a normalisation shift, numerators of every length."""
+    mx = (1 << bits) - 1
+    L = nlimbs(bits)
+    out = []
+    if bits < 128:
+        return out
+    tries = 0
+    while len(out) < count and tries < count * 60:
+        tries += 1
+        two = L >= 3 and rng.random() < 0.5
+        dl = 2 if two else 1
+        s = rng.choice([0, 0, 1, 7, 32, 63])
+        dn = (rng.getrandbits(64 * dl - s) | (1 << (64 * dl - s - 1)))          # un-normalised divisor, shift s
+        if not two and rng.random() < 0.3:
+            dn = 0x800000005a827996 >> s or 1
+        d = dn << s
+        k = _B - rng.choice([1, 2, 2, 3, 4, rng.randrange(1, 200)])
+        u = k * d
+        hit = _mg10_3x2_increment_on_exact(u, d) if two else _mg10_2x1_increment_on_exact(u, d)
+        if not hit:
+            continue
+        K = k
+        for extra in range(0, L - dl):          # longer numerators: more digits, same leading step
+            n = K * dn
+            if n <= mx:
+                out.append((n, dn))
+            K = (K << 64) | (_B - rng.randrange(1, 5))
+    return out
+
+
 def scenarios(tier, rng):
     quick = tier == "quick"
     sc = []
@@ -126,6 +194,8 @@ def scenarios(tier, rng):
                 ps += pairs(bits, rng, n // 3)
             if 129 <= bits <= 1100:
                 ps += forced_digit_cases(bits, rng, 3 if quick else 25)
+            if 128 <= bits <= 1100:
+                ps += estimate_low_exact(bits, rng, 12 if quick else 120)
         for a, b in dict.fromkeys(ps):
             sc.append({"g": "arith", "op": "div", "bits": bits, "a": tobytes(a), "b": tobytes(b)})
     return {"ux_arith": sc}
